@@ -13,7 +13,7 @@ import (
 func init() { register("C10", true, runC10) }
 
 func runC10(c *Check) {
-	c.Explanation = "Decides the ownership clauses of C10 for every history and interleaving of commands/requests: the session's original profile (interactive's p, serveWebInterface's p, webInterface.prof, the /download closure's p) only ever reaches functions whose whole call tree has an empty observable mod-set on the profile data model, and is never written directly (R1); every profile handed to a report generator that may mutate it (generateReport, generateRawReport, generateReportWrapper) is the direct result of profileCopier.newCopy() or is dead after the call (PProf's one-shot path) (R2); the process-wide option store currentCfg is referenced only by currentConfig (read), setCurrentConfig and configure (write), the writers are unreachable from parseCommandLine, the report generators and every web handler, per-command options are written into a value copy (config has no pointer, slice or map field, so the copy is deep), and (*config).set/applyURL are only applied to local copies outside configure (R3). Also: no package-level state is written on a report-generation path outside two reviewed registries (R5); the default Writer truncates its output file (R6). Not decided: that equal options give equal output (C08), external visualizers."
+	c.Explanation = "Decides the ownership clauses of C10 for every history and interleaving of commands/requests: the session's original profile (interactive's p, serveWebInterface's p, webInterface.prof, the /download closure's p) only ever reaches functions whose whole call tree has an empty observable mod-set on the profile data model, and is never written directly (R1); every profile handed to a report generator that may mutate it (generateReport, generateRawReport, generateReportWrapper) is the direct result of profileCopier.newCopy() or is dead after the call (PProf's one-shot path) (R2); the process-wide option store currentCfg is referenced only by currentConfig (read), setCurrentConfig and configure (write), the writers are unreachable from parseCommandLine, the report generators and every web handler, per-command options are written into a value copy (config has no pointer, slice or map field, so the copy is deep), and (*config).set/applyURL are only applied to local copies outside configure (R3). Also: no package-level state is written on a report-generation path outside two reviewed registries (R5); the default Writer truncates its output file (R6). Round-I additions: package-level sync.Map/Pool/atomic state counts as hidden session state; (*config).set stores a parsed value only after its error was found nil; lazily initialised handler state is touched only inside its sync.Once (shared with C20-R1). Not decided: that equal options give equal output (C08), external visualizers."
 	p := c.P
 	m := newModAnalyzer(p)
 	tracked := p.structsOf("profile", "Profile", "Sample", "Location", "Line", "Function", "Mapping", "ValueType", "Label")
